@@ -676,7 +676,68 @@ func vQueue2Case(r *rand.Rand, out *vOut, kind string) {
 	out.emit(head+strings.Join(ops, ";"), strings.Join(obs, ";"))
 }
 
+// vQueue2HolderBig: a holder queue with more live entries than its inline array takes (the map-backed part appears around the 224th
+// holder): both iteration interfaces — IterNodes() and IterNodeQueues(i) node by node, which is how the admin listings walk holders —
+// must yield exactly the live entries in arrival order, also after releases from the left and from the middle. Monitor only.
+func vQueue2HolderBig(r *rand.Rand, out *vOut) {
+	for _, n := range []int{230, 300, 520} {
+		q := NewLockManagerLockQueue()
+		var ref []*Lock
+		for i := 0; i < n; i++ {
+			var id [16]byte
+			id[0], id[1], id[2], id[3] = byte(i), byte(i>>8), 0x5a, 0xa5
+			l := &Lock{locked: 1, command: &protocol.LockCommand{LockId: id}}
+			q.Push(l)
+			ref = append(ref, l)
+		}
+		check := func(when string) {
+			nodes := q.IterNodes()
+			var a, b []*Lock
+			for i := range nodes {
+				for _, l := range nodes[i] {
+					if l != nil && l.locked > 0 {
+						a = append(a, l)
+					}
+				}
+				for _, l := range q.IterNodeQueues(int32(i)) {
+					if l != nil && l.locked > 0 {
+						b = append(b, l)
+					}
+				}
+			}
+			same := func(x []*Lock) bool {
+				if len(x) != len(ref) {
+					return false
+				}
+				for i := range x {
+					if x[i] != ref[i] {
+						return false
+					}
+				}
+				return true
+			}
+			if !same(a) {
+				out.monitor("queue2:holder:iter", fmt.Sprintf("%d holders, %s: IterNodes() yields %d live entries, %d are held (or in another order)", n, when, len(a), len(ref)), map[string]string{"op": fmt.Sprintf("holder-big %d", n)})
+			}
+			if !same(b) {
+				out.monitor("queue2:holder:iter-node-queues", fmt.Sprintf("%d holders, %s: IterNodeQueues(i) over the %d nodes yields %d live entries, %d are held (or in another order)", n, when, len(nodes), len(b), len(ref)), map[string]string{"op": fmt.Sprintf("holder-big %d", n)})
+			}
+		}
+		check("after the pushes")
+		for k := 0; k < 40 && len(ref) > 0; k++ { // release the oldest ones
+			if l := q.Pop(); l != nil {
+				l.locked = 0
+				ref = ref[1:]
+			}
+		}
+		check("after 40 releases from the left")
+		rec := fmt.Sprintf("# holder-big %d", n)
+		out.emit(rec, rec)
+	}
+}
+
 func vQueue2Run(r *rand.Rand, out *vOut, n int) {
+	vQueue2HolderBig(r, out)
 	for _, kind := range []string{"ring", "prio", "wait", "holder"} {
 		for i := 0; i < n; i++ {
 			vQueue2Case(r, out, kind)
